@@ -16,7 +16,7 @@
 (*   expression, whatever value the specification wrote next to it.                    *)
 EXTENDS Naturals, Sequences, FiniteSets, TLC
 
-CONSTANTS Containers,   \* subset of {"list", "dict1", "dict2"}
+CONSTANTS Containers,   \* subset of {"list", "dict1", "dict2", "dict3"} (nesting depth of the group the items sit in)
           Forms,        \* subset of {"bare", "v", "lv", "vl"}
           ValForms,     \* subset of {"float", "int", "sci"}
           OptForms,     \* subset of {"none", "vary_false", "vary_true", "nonneg", "bounds", "expr"}
@@ -45,7 +45,7 @@ Expected(c, d, its) ==
      LET it == its[i] IN
      [explicit     |-> Labelled(it),
       index        |-> i,
-      depth        |-> (CASE c = "list" -> 0 [] c = "dict1" -> 1 [] OTHER -> 2),
+      depth        |-> (CASE c = "list" -> 0 [] c = "dict1" -> 1 [] c = "dict2" -> 2 [] OTHER -> 3),
       val          |-> it.val,
       vary         |-> (IF it.opts = "expr" THEN FALSE
                         ELSE IF it.opts = "vary_false" THEN FALSE
